@@ -33,6 +33,8 @@ type c19PoolIn struct {
 	// proxy.keepalivetimeout in ms (0 = the stream's 1 s; -1 = a negative value: TCP keep-alive probes off). It is
 	// about probes on a connection, not about keeping connections: the pool must not depend on it.
 	KeepAliveMs int `json:"keepalive_ms,omitempty"`
+	// c19.binpool: the proxy is the real fabio executable (main's own transports), not the in-process HTTPProxy
+	Binary bool `json:"binary,omitempty"`
 }
 
 type c19PoolOut struct {
@@ -103,31 +105,49 @@ func c19PoolOnce(in c19PoolIn) (out c19PoolOut) {
 	if in.KeepAliveMs != 0 {
 		ka = int64(in.KeepAliveMs) * int64(time.Millisecond)
 	}
-	cfg := c19Cfg{Dial: int64(2 * time.Second), RHT: int64(2 * time.Second), KeepAlive: ka,
-		Idle: int64(in.IdleMs) * int64(time.Millisecond), MaxConn: int64(in.MaxConn)}.config()
-	transport.SetConfig(cfg)
-	tbl, err := c19Table(tgt, up.Listener.Addr().String())
-	if err != nil {
-		out.Err = err.Error()
-		return
-	}
-	globs := route.NewGlobCache(16)
-	p := c19Proxy(cfg.Proxy, func(r *http.Request) *route.Target {
-		return tbl.Lookup(r, "", route.Picker["rnd"], route.Matcher["prefix"], globs, false)
-	})
-	t := c19OnlyTarget(tbl)
-	defer func() {
-		for _, tr := range []http.RoundTripper{p.Transport, p.InsecureTransport} {
-			if x, ok := tr.(*http.Transport); ok {
-				x.CloseIdleConnections()
+	cc := c19Cfg{Dial: int64(2 * time.Second), RHT: int64(2 * time.Second), KeepAlive: ka,
+		Idle: int64(in.IdleMs) * int64(time.Millisecond), MaxConn: int64(in.MaxConn)}
+	frontURL := ""
+	if in.Binary {
+		f, errs := c19StartFabio(tgt, up.Listener.Addr().String(), cc, false, nil, "")
+		if f == nil {
+			out.Err = errs
+			return
+		}
+		defer f.Stop()
+		defer func() {
+			if f.Gone(0) {
+				out.Err = "env: the fabio process exited during the measurement"
 			}
+		}()
+		frontURL = "http://" + f.Addr
+	} else {
+		cfg := cc.config()
+		transport.SetConfig(cfg)
+		tbl, err := c19Table(tgt, up.Listener.Addr().String())
+		if err != nil {
+			out.Err = err.Error()
+			return
 		}
-		if t != nil && t.Transport != nil {
-			t.Transport.CloseIdleConnections()
-		}
-	}()
-	front := httptest.NewServer(p)
-	defer front.Close()
+		globs := route.NewGlobCache(16)
+		p := c19Proxy(cfg.Proxy, func(r *http.Request) *route.Target {
+			return tbl.Lookup(r, "", route.Picker["rnd"], route.Matcher["prefix"], globs, false)
+		})
+		t := c19OnlyTarget(tbl)
+		defer func() {
+			for _, tr := range []http.RoundTripper{p.Transport, p.InsecureTransport} {
+				if x, ok := tr.(*http.Transport); ok {
+					x.CloseIdleConnections()
+				}
+			}
+			if t != nil && t.Transport != nil {
+				t.Transport.CloseIdleConnections()
+			}
+		}()
+		front := httptest.NewServer(p)
+		defer front.Close()
+		frontURL = front.URL
+	}
 
 	cl := &http.Client{Transport: &http.Transport{DisableKeepAlives: true}, Timeout: 10 * time.Second}
 	var wg sync.WaitGroup
@@ -136,7 +156,7 @@ func c19PoolOnce(in c19PoolIn) (out c19PoolOut) {
 		wg.Add(1)
 		go func() {
 			defer wg.Done()
-			resp, err := cl.Get(front.URL + "/")
+			resp, err := cl.Get(frontURL + "/")
 			if err != nil {
 				return
 			}
@@ -280,6 +300,20 @@ func init() {
 				IdleMs:  []int{0, 60, 100, 100, 150, 200}[r.Intn(6)],
 				MaxConn: []int{-1, 0, 1, 1, 2, 2, 3, 4, 7}[r.Intn(9)],
 				N:       1 + r.Intn(5), KeepAliveMs: []int{0, 0, -1, 30, 3000}[r.Intn(5)]}
+		},
+		Run: c19RunPool,
+	})
+	hx.Register(&hx.Stream{
+		Name: "c19.binpool",
+		Corpus: []interface{}{
+			c19PoolIn{Kind: "insecure", IdleMs: 100, MaxConn: 1, N: 3, Binary: true},
+			c19PoolIn{Kind: "default", IdleMs: 60, MaxConn: 3, N: 2, Binary: true},
+		},
+		Gen: func(r *hx.Rand, i int) interface{} {
+			return c19PoolIn{Kind: []string{"insecure", "default", "route"}[i%3],
+				IdleMs:  []int{0, 60, 100, 150}[r.Intn(4)],
+				MaxConn: []int{-1, 1, 1, 3, 4}[r.Intn(5)],
+				N:       2 + r.Intn(3), Binary: true}
 		},
 		Run: c19RunPool,
 	})
